@@ -119,6 +119,19 @@ pub fn run_c08(prop: &str, seed: u64, index: usize, tier: Tier) -> RunReport {
             rep.sample = Some(json!({"history": case.ops.iter().take(25).map(|o| o.short()).collect::<Vec<_>>(), "wal_files": parsed.files.len(), "frames": parsed.frames.len(), "entries": parsed.entries.len(), "damage": format!("{:?}", ops), "open": if ev.open_ok { "Ok".to_string() } else { format!("{:?}", ev.open_err) }, "verdict": if ev.failures.is_empty() { "held" } else { "VIOLATION" }}));
         }
     }
+    // damage, open, write on, restart: a lost frame header followed by an entry of exactly the lost frame's size
+    for _ in 0..2 {
+        if let Some((ops, cont)) = crate::damage::aimed_damage_then(&parsed, &d, &mut rng) {
+            let fails = crate::damage::damage_then(prop, &d, &case, &image, &ops, &cont);
+            rep.evaluations += 1;
+            rep.count("damage_then_continue_cases", 1);
+            for f in fails {
+                if rep.found.len() < 8 {
+                    rep.found.push(Found { prop: prop.to_string(), clause: f.clause, detail: f.detail, case: case.clone(), fault: Fault::DamageThen { ops: ops.clone(), cont: cont.clone() } });
+                }
+            }
+        }
+    }
     rep.digest ^= dg.0;
     rep
 }
